@@ -37,6 +37,11 @@ func ApplyExtensions() {
 	for _, e := range extraExtensions {
 		extend(e.id, e.fn)
 	}
+	for id, fn := range thoroughRuns {
+		r := Registry[id]
+		r.ThoroughRun = fn
+		Registry[id] = r
+	}
 }
 
 // c15LoopVars: the per-event check result must carry the event and position of its own iteration.
